@@ -14,7 +14,7 @@ import time
 
 from z3 import z3
 
-from vlib import mipcheck
+from vlib import mipcheck, opt
 
 ID = "C20"
 HERE = os.path.dirname(os.path.dirname(os.path.abspath(__file__)))
@@ -27,7 +27,7 @@ ASSUMPTIONS = ["a SolverModel variable without an explicit lower bound is >= 0 a
                "the C++ library is compiled unchanged with g++ -std=c++20 -fno-access-control against a sequential shim of tbb::{concurrent_hash_map, concurrent_vector, parallel_for, blocked_range, task_group}",
                "read-back relation (leaf satisfied <=> indicator = 1 and every ancestor has utility; allocation of a leaf = its partition variables over [start, start+duration) resp. one grid slot for MalleableChoose) is validated on every z3 model used, through the driver's replay mode (real populateResults())",
                "reference semantics of STRL (checks/c20.py: ref()) written from the operator definitions: Choose = exactly numRequired units for the whole duration, Max = at most one child, Min = all or none, LessThan = both or neither and first ends before second starts, Scale = multiply utility, Objective = sum, Allocation = fixed usage with no utility"]
-EXPLANATION = "all-solutions SMT queries over the model emitted by the real C++ STRL compiler; optimum compared with an independent reference (z3.Optimize on both)"
+EXPLANATION = "all-solutions SMT queries over the model emitted by the real C++ STRL compiler; optimum compared with an independent reference (plain-solver maximisation on both; z3.Optimize is not trusted, see vlib/opt.py)"
 REQUIRED_LABELS = ["C20:capacity-within-quantity", "C20:choose-gets-exactly-its-demand", "C20:max-at-most-one-child", "C20:min-all-children", "C20:lessthan-ordered", "C20:lessthan-both-or-neither",
                    "C20:utility-equals-objective", "C20:optimum-equals-reference", "C20:passes-preserve-optimum", "C20:coarser-grid-only-loses-utility", "C20:readback-matches-populateResults",
                    "C20:witness-some-leaf-can-be-satisfied", "C20:every-model-outcome-is-valid", "C20:every-valid-outcome-is-a-model-solution"]
@@ -90,8 +90,8 @@ def make_tree(spec, fine=False):
         return add("CHOOSE", name=name, req=req, start=s, dur=dur, util=util, parts=pids)
 
     def task(name, req, dur, starts, util, single=False):
-        """starts are grid indices"""
-        ts = [s * disc for s in starts]
+        """starts are grid indices (counted from the first grid point the front-end would emit, floor(now / disc) * disc)"""
+        ts = [(s + base) * disc for s in starts]
         if fine:
             ts = list(range(min(ts), max(ts) + 1))
         if len(ts) == 1:
@@ -109,7 +109,12 @@ def make_tree(spec, fine=False):
     reqA = 1 + (var % 2 if totalq > 1 else 0)
     reqB = 1 if totalq < 3 else 1 + (var // 2) % 2
     durA, durB, durC = 1 + var % 3, 2, 1 + (var + 1) % 2
-    now = 0 if var < 3 else disc  # a later `now` turns the earliest leaves into no-utility expressions
+    # variants >= 3: a later `now`, one past a grid point when the grid is coarse -- the front-end emits options from
+    # floor(now / disc) * disc, so only then the first option of every task lies in the past (a no-utility leaf)
+    base = 0 if var < 3 else 1
+    now = 0 if var < 3 else (disc if disc == 1 else disc + 1)
+    if shape in ("lt_alloc", "alloc_cap"):  # a task has been running since 0: the tree is compiled at time 0
+        base, now = 0, 0
     root = add("OBJ", name="obj")
     if shape == "indep":
         a = task("A", reqA, durA, [0, 1], 1)
@@ -201,14 +206,14 @@ def make_tree(spec, fine=False):
         mn = add("MIN", name="min1")
         edges += [(mn, a), (mn, b), (root, mn), (root, a)]
     elif shape == "wchoose":
-        n0 = now // disc
+        n0 = -(-now // disc)
         m = add("MAX", name="max_A")
         edges.append((m, wchoose("A", reqA, durA, n0, n0 + 2, 1, off=var % 2)))
         w = wchoose("B", reqB, durB, n0, n0 + 1, 2)
         c = add("ALLOC", name="C", start=0, dur=2 * disc, alloc={pids[-1]: 1})
         edges += [(root, m), (root, w), (root, c)]
     elif shape == "lt_wchoose":
-        n0 = now // disc
+        n0 = -(-now // disc)
         lt = add("LT", name="lt1")
         a = wchoose("A", reqA, durA, n0, n0 + 1, 1)
         mb = add("MAX", name="max_B")
@@ -217,7 +222,7 @@ def make_tree(spec, fine=False):
         c = task("C", 1, durC, [n0, n0 + 2], 1)
         edges.append((root, c))
     elif shape == "mchoose":
-        n0 = now // disc
+        n0 = -(-now // disc)
         a = add("MCHOOSE", name="A", slots=2 + var % 2, start=n0 * disc, end=(n0 + 3) * disc, gran=g, util=2, parts=pids)
         b = task("B", reqB, durB, [n0, n0 + 1], 1)
         edges += [(root, a), (root, b)]
@@ -475,16 +480,13 @@ def ref(P, nodes, edges, root, now, gran):
 
 
 def maximize(cons, term):
-    o = z3.Optimize()
-    o.set("timeout", 120000)
-    o.add(cons)
-    h = o.maximize(term)
-    r = o.check()
-    if r == z3.unsat:
+    """optimum by plain-solver strengthening (vlib/opt.py: z3.Optimize is not trusted); "infeasible" | None (unknown) | value"""
+    st, v, _ = opt.maximize(cons, term)
+    if st == "unsat":
         return "infeasible"
-    if r != z3.sat:
+    if st != "sat":
         return None
-    return zval(o.upper(h))
+    return v if isinstance(v, int) else float(v)
 
 
 def allsat(cons, exprs, cap=600):
@@ -528,7 +530,7 @@ def compile_tree(drv, spec, passes=None, fine=False, dyn=None):
 
 
 def optimum_pair(spec):
-    """(optimum of the compiled model, optimum of the reference) for a tree, each by z3.Optimize"""
+    """(optimum of the compiled model, optimum of the reference) for a tree, each by plain-solver maximisation"""
     d = Driver()
     try:
         tree, pm = compile_tree(d, spec)
@@ -677,7 +679,19 @@ def check_instance(spec):
         if pm["exception"]:
             res["models"] = 1
             note("C20:compiles")
-            bad("C20:compiler-raised", exception=pm["exception"][:300])
+            # does the same tree compile without the pruning passes? then the passes changed the outcome from a model to an exception
+            without = None
+            if tuple(spec["passes"]) != (0, 0) or spec.get("dyn"):
+                d2 = Driver()
+                try:
+                    _, pm2 = compile_tree(d2, spec, passes=(0, 0), dyn=0)
+                    without = "compiles" if not pm2["exception"] else pm2["exception"][:200]
+                finally:
+                    d2.close()
+            if without == "compiles":
+                bad("C20:passes-make-the-compiler-raise", exception=pm["exception"][:300], passes=spec["passes"], dyn=spec.get("dyn", 0))
+            else:
+                bad("C20:compiler-raised", exception=pm["exception"][:300], without_passes=without)
             return res
         M = Model(tree, pm)
         P, nodes, root = M.P, M.nodes, M.root
@@ -913,6 +927,8 @@ def check_instance(spec):
 
 
 def signature(spec, v):
+    if v["label"] == "C20:passes-make-the-compiler-raise" and "must have at least one child with utility" in str(v["detail"].get("exception")) and spec["passes"][0] == 1 and not spec.get("dyn"):
+        return "critical-path-pass-leaves-a-max-whose-only-option-is-in-the-past"
     return v["label"] + ":" + spec["shape"]
 
 
